@@ -265,6 +265,7 @@ type Phase struct {
 	// abnormally; it may return follow-up phases (restart after a crash).
 	Crash func(s *Super, ph Phase, stderr string, partial *PhaseResult) []Phase
 	Arg   string // opaque argument passed to the child (VERIF_ARG)
+	Bin   string // alternative child binary in the bin directory (optional phases: skipped when it is absent)
 }
 
 // Check is the registration of one property.
